@@ -159,6 +159,12 @@ func checkC14(c *vkit.Ctx) {
 func c14Valid(c *vkit.Ctx, r *rand.Rand, i int, cfgs []jsonCfg) {
 	cl := vkit.Classes{}
 	d := vkit.JSONDoc(r, 4, cl)
+	if i%400 == 7 && d.Kind == "obj" {
+		// a string value beyond one MiB: the canonical text keeps it on one line
+		d.Keys = append(d.Keys, "huge")
+		d.Vals = append(d.Vals, &vkit.JNode{Kind: "str", S: strings.Repeat("H", 1<<20+r.IntN(5000))})
+		cl["string>1MiB"] = true
+	}
 	jc := cfgs[r.IntN(len(cfgs))]
 	api := pick2(r, "json", "json", "sjson")
 	sortOn := jc.Cfg == nil || jc.Cfg.SortKeys
